@@ -15,6 +15,7 @@ import DateutilVerif.Model.RelativeDelta
 import DateutilVerif.Spec.RelativeDelta
 import DateutilVerif.Generated.RDOps
 import DateutilVerif.Model.RDHistory
+import DateutilVerif.Model.RDScale
 
 namespace Ops.RelativeDelta
 open Wire RDM
@@ -209,6 +210,17 @@ def handleGen (op : String) (args : List String) : Option String :=
   match op with
   | "rdgen.mk" => (parseKw? args).map (fun k => Py.showR showRD (Gen.initKw k))
   | "rdgen.expr" => (evalRPNGen args []).map (Py.showR showRD)
+  | "rdgen.muldy" => do
+      let d ← parseRD? (args.take 18)
+      match (args.drop 18).mapM parseInt? with
+      | some [m, k] => pure (Py.showR showRD (Gen.mulDy d { m := m, k := k.toNat }))
+      | _ => none
+  | "rdgen.divp2" => do
+      let d ← parseRD? (args.take 18)
+      match (args.drop 18).mapM parseInt? with
+      | some [ng, k] => pure (Py.showR showRD (Gen.divPow2 d { neg := ng != 0, k := k.toNat }))
+      | _ => none
+  | "rdgen.normalized" => (parseRD? args).map (fun d => Py.showR showRD (Gen.normalized d))
   | "rdgen.bool" => (parseRD? args).map (fun d => Py.showR showBool (Gen.bool d))
   | "rdgen.hash" => (parseRD? args).map (fun d => Py.showR showHashList (Gen.hashKey d))
   | "rdgen.eq" => do
@@ -297,6 +309,17 @@ def handle (op : String) (args : List String) : Option String :=
   | "rd.setmonths" => match args.mapM parseInt? with
     | some [m] => let r := Gen.setMonths {} m; some s!"ok {r.years} {r.months}"
     | _ => none
+  | "rd.muldy" => do
+      let d ← parseRD? (args.take 18)
+      match (args.drop 18).mapM parseInt? with
+      | some [m, k] => pure ("ok " ++ showRD (mulDyadic d m k.toNat))
+      | _ => none
+  | "rd.divp2" => do
+      let d ← parseRD? (args.take 18)
+      match (args.drop 18).mapM parseInt? with
+      | some [ng, k] => pure ("ok " ++ showRD (divPow2 d (ng != 0) k.toNat))
+      | _ => none
+  | "rd.normalized" => (parseRD? args).map (fun d => "ok " ++ showRD (normalizedInt d))
   | "rd.weeks" => (parseRD? args).map (fun d => s!"ok {RDH.weeksOf d}")
   | "rd.setweeks" => do
       let d ← parseRD? (args.take 18)
